@@ -299,11 +299,21 @@ def check_end_implicit_comment(program: Program, max_len: int = 5):
     issues = []
     n = 0
     alphabet = ["\n", " ", "x", "\t"]
+    texts = []
     for L in range(0, max_len + 1):
         for tup in itertools.product(alphabet, repeat=L):
             t = "".join(tup)
             if "\t" in t and L > 3:
                 continue
+            texts.append(t)
+    # characters that end a line for str.splitlines() but are no line break of the source (lines are counted by "\n" only)
+    for exotic in ("\r", "\f", "\x0b", "\x85", "\u2028"):
+        for L in range(1, 5):
+            for tup in itertools.product(["\n", "x", exotic], repeat=L):
+                if exotic in tup:
+                    texts.append("".join(tup))
+    for t in texts:
+        if True:
             n += 1
             text = "AB" + t + "CD"
 
